@@ -271,8 +271,8 @@ PROPS["C20"] = {
 
 # ---------------------------------------------------------------- C04
 PROPS["C04"] = {
-    "level_text": 'Interleaved frames: two frames (channel 0..255, payload symbolic) through real MarshalTo, a chunking reader with every chunk size (P<=1 quick, <=2 thorough) or byte-wise chunks (P 12/40), and real bufio + Unmarshal: same channel and payload. Text messages: a request (defined methods, URL with path and query, CSeq, header with symbolic value, symbolic body) followed by a frame, and a response followed by a request, through real Marshal, a reader that cuts the stream at EVERY position into two reads (bufio 4096) or delivers it byte by byte (bufio 4096, the size conn.Conn uses), and real Unmarshal: same method/status, URL, headers, body, then the following element intact. conn.Conn.Read dispatch: sequences of 2 (3) elements of any kind (request with any of the ten methods / response / frame), optionally after a stray byte, come back as the same kinds with the same contents under byte-wise delivery (and every two-way cut, thorough). Body limit: Content-Length values around the 128 KiB maximum, around 2^32, 2^63 and 2^64, negative and malformed: refused with an error, never a panic. Header entry limit: 254..257 lines with distinct keys or one repeated key: refused exactly beyond 255. readBytesLimited: never consumes past the limit, fails iff no delimiter within it. base64 stream reader: two padded blocks under every chunking decode to the concatenation.',
-    "level_note": 'Elements already returned stay intact: after a response has been read, a LONGER request is read through the same bufio.Reader (one delivery per element) and the response body and header values are compared again (no aliasing of the reader's buffer). Outside: key/value/URL/method/body length limits at their real constants, WebSocket carrier (gorilla), more than two reads per message (only every two-way cut and the all-single-bytes delivery), URLs other than the fixed one, payloads longer than the bounds.',
+    "level_text": 'Interleaved frames: two frames (channel 0..255, payload symbolic) through real MarshalTo, a chunking reader with every chunk size (P<=1 quick, <=2 thorough) or byte-wise chunks (P 12/40), and real bufio + Unmarshal: same channel and payload. Text messages: a request (defined methods, URL with path and query, CSeq, header with symbolic value, symbolic body) followed by a frame, and a response followed by a request, through real Marshal, a reader that cuts the stream at EVERY position into two reads (bufio 4096) or delivers it byte by byte (bufio 4096, the size conn.Conn uses), and real Unmarshal: same method/status, URL, headers, body, then the following element intact. conn.Conn.Read dispatch: sequences of 2 (3) elements of any kind (request with any of the ten methods / response / frame), optionally after a stray byte, come back as the same kinds with the same contents under byte-wise delivery (and every two-way cut, thorough). Body limit: Content-Length values around the 128 KiB maximum, around 2^32, 2^63 and 2^64, negative and malformed: refused with an error, never a panic. Header entry limit: 254..257 lines with distinct keys or one repeated key: refused exactly beyond 255. readBytesLimited: never consumes past the limit, fails iff no delimiter within it. base64 stream reader: two padded blocks under every chunking decode to the concatenation. Elements already returned stay intact: after a response has been read, a LONGER request is read through the same bufio.Reader (one delivery per element) and the response body and header values are compared again (no aliasing of the reader buffer).',
+    "level_note": 'Outside: key/value/URL/method/body length limits at their real constants, WebSocket carrier (gorilla), more than two reads per message (only every two-way cut and the all-single-bytes delivery), URLs other than the fixed one, payloads longer than the bounds.',
     "runs": [
         R("frames-allchunks", "pkg/base", "pkg/base", ["ZzC04Frames"], flags={"concoff": True}, quick_params={"P": 1}, thorough_params={"P": 2}),
         R("frames-bytewise", "pkg/base", "pkg/base", ["ZzC04Frames"], flags={"concoff": True}, quick_params={"P": 12, "CHUNK1": 1}, thorough_params={"P": 16, "CHUNK1": 1}),
